@@ -43,6 +43,7 @@ type Clause struct {
 	Callback string
 	Line     int
 	OnPanic  bool
+	Mode     string // "" = every mode; "seq" / "itf" = only that mode
 
 	FnName string   // synthetic function
 	P1     []string // parameter names of level 1 (entry state)
@@ -257,6 +258,13 @@ func parseContractFile(path, pkgDir string, src []byte) (*ContractFile, error) {
 			if strings.HasPrefix(rest, "on-panic ") {
 				cl.OnPanic = true
 				rest = strings.TrimSpace(strings.TrimPrefix(rest, "on-panic "))
+			}
+			if strings.HasPrefix(rest, "@seq ") {
+				cl.Mode = "seq"
+				rest = strings.TrimSpace(strings.TrimPrefix(rest, "@seq "))
+			} else if strings.HasPrefix(rest, "@itf ") {
+				cl.Mode = "itf"
+				rest = strings.TrimSpace(strings.TrimPrefix(rest, "@itf "))
 			}
 			if m := reTag.FindStringSubmatch(rest); m != nil {
 				cl.Prop = strings.TrimSuffix(m[1], ":")
@@ -935,8 +943,21 @@ func (g *genCtx) generate(cf *ContractFile) (string, error) {
 			switch cl.Kind {
 			case "requires", "cbrequires":
 				cl.Levels = 1
-				if len(pres) > 0 || len(lps) > 0 || len(lpends) > 0 {
+				if len(lps) > 0 || len(lpends) > 0 || (len(pres) > 0 && cl.Kind == "requires") {
 					return "", fmt.Errorf("%s:%d: pre()/lp() not allowed in %s", cf.Path, cl.Line, cl.Kind)
+				}
+				if len(pres) > 0 {
+					// callback precondition that refers to the entry state of the enclosing function: two levels
+					cl.Levels = 2
+					np := len(vars)
+					outer, inner := l1[:np], l1[np:]
+					cl.P1, cl.P3 = names(outer), names(inner)
+					fmt.Fprintf(&w, "func %s%s(%s) func(%s) bool {\n\t%s\n", cl.FnName, tdecl, plist(outer), plist(inner), use(outer))
+					for i, p := range pres {
+						fmt.Fprintf(&w, "\tpre_%d := %s\n", i, p)
+					}
+					fmt.Fprintf(&w, "\treturn func(%s) bool {\n\t\t%s\n\t\treturn %s\n\t}\n}\n", plist(inner), use(inner), expr)
+					break
 				}
 				fmt.Fprintf(&w, "func %s%s(%s) bool {\n\t%s\n\treturn %s\n}\n", cl.FnName, tdecl, plist(l1), use(l1), expr)
 			case "invariant", "siterequires":
@@ -987,6 +1008,13 @@ func (g *genCtx) generate(cf *ContractFile) (string, error) {
 				switch {
 				case raw == "*":
 					mi.Kind, mi.Type, mi.Field = "whole", "*", "*"
+				case strings.HasPrefix(raw, "[]") && strings.HasSuffix(raw, "::*"):
+					// all elements of all slices of a basic element type
+					w := map[string]int{"uint64": 64, "int64": 64, "int": 64, "uint": 64, "uint32": 32, "int32": 32, "uint8": 8, "byte": 8}[strings.TrimSuffix(strings.TrimPrefix(raw, "[]"), "::*")]
+					if w == 0 {
+						return nil, fmt.Errorf("unsupported element type in %q", raw)
+					}
+					mi.Kind, mi.Type, mi.Field = "wholekey", "", "E:"+symName(bvSort(w).name)
 				case strings.HasPrefix(raw, "map "):
 					// the contents of one Go map
 					mi.Kind = "mapof"
